@@ -712,16 +712,16 @@ theorem applyFilter_no_panic (ext : Ext) (params : Option Dict) (name input : By
       · exact a85_no_panic' _ _
       · simp
 
-theorem filterLoop_no_panic (ext : Ext) (params : Option Dict) : ∀ (fs : List Bytes) (input : Bytes) (s : String),
-    filterLoop ext params fs input ≠ .panic s := by
+theorem filterLoop_no_panic (ext : Ext) (params : Nat → Option Dict) : ∀ (fs : List Bytes) (i : Nat) (input : Bytes) (s : String),
+    filterLoop ext params i fs input ≠ .panic s := by
   intro fs
   induction fs with
-  | nil => intro input s; simp [filterLoop]
+  | nil => intro i input s; simp [filterLoop]
   | cons f fs ih =>
-    intro input s
+    intro i input s
     unfold filterLoop
-    cases h : applyFilter ext params f input with
-    | ok v => simp [Outcome.bind]; exact ih v s
+    cases h : applyFilter ext (params i) f input with
+    | ok v => simp [Outcome.bind]; exact ih (i + 1) v s
     | err e => simp [Outcome.bind]
     | panic s' => exact absurd h (applyFilter_no_panic _ _ _ _ _)
 
@@ -732,7 +732,7 @@ theorem decompressedContent_no_panic (ext : Ext) (st : Strm) (s : String) : deco
   split
   · simp
   · simp
-  · exact filterLoop_no_panic _ _ _ _ _
+  · exact filterLoop_no_panic _ _ _ _ _ _
 
 /-- `get_page_content` returns `Ok` whenever the filters do not panic -/
 theorem getPageContent_ok (decomp : Dict → Bytes → Outcome Bytes) (hd : ∀ d c s, decomp d c ≠ .panic s)
